@@ -13,7 +13,22 @@ from . import tlc, decio, decquery
 from .core import Outcome, ensure_repo_on_path, finish, pmap, Machinery, REPO
 
 PROP = "C02"
-COMMENTS = ["# c", "#", "# End of story ; , Decay X", "#Enddecay", "# yesPhotos", "#\tcomment with # inside and ; ;", "# 1.0 K+ K- PHSP;"]
+COMMENTS = ["# c", "#", "# End of story ; , Decay X", "#Enddecay", "# yesPhotos", "#\tcomment with # inside and ; ;", "# 1.0 K+ K- PHSP;",
+            # characters that str.splitlines() takes for line ends and the grammar does not: still one comment
+            "# form\x0cfeed 1.0 K+ K- PHSP;", "# next\x85line Decay X", "# ls\u2028 ps\u2029 End", "# vt\x0b fs\x1c gs\x1d rs\x1e ;"]
+
+
+def lf_lines(text, keepends=False):
+    """the lines of a text as the grammar sees them: cut at \\n only (str.splitlines() also cuts at form feed, NEL, ...)"""
+    parts = text.split("\n")
+    if keepends:
+        out = [p + "\n" for p in parts[:-1]]
+        if parts[-1]:
+            out.append(parts[-1])
+        return out
+    if parts and parts[-1] == "":
+        parts.pop()
+    return [p[:-1] if p.endswith("\r") else p for p in parts]
 WS = [" ", "  ", "\t", " \t "]
 
 
@@ -24,14 +39,14 @@ def parse_packaged(text: str, how: dict, tmp: Path):
     if how.get("crlf_all"):
         text = text.replace("\r\n", "\n").replace("\n", "\r\n")
     if how["mode"] == "string":
-        has_end = any(l.lstrip().startswith("End") and not l.lstrip().startswith("Enddecay") for l in text.splitlines())
+        has_end = any(l.lstrip().startswith("End") and not l.lstrip().startswith("Enddecay") for l in lf_lines(text))
         text = text + ("End\n" if how.get("end_string") and not has_end else "")
         if how.get("last_line_is_comment"):
             # the text ends in a comment that runs to the very end of the input (no final line end)
             text = text.rstrip("\r\n") + "  # the end"
         p = DecFileParser.from_string(text)
     else:
-        lines = text.splitlines(keepends=True)
+        lines = lf_lines(text, keepends=True)
         cuts = [0] + sorted(set(c for c in how.get("cuts", []) if 0 < c < len(lines))) + [len(lines)]
         names = []
         d = Path(tempfile.mkdtemp(dir=tmp))
@@ -240,7 +255,7 @@ def edit_real(text, sites, rng, intensity):
     for off, ins in sorted(ops, key=lambda x: -x[0]):
         text = text[:off] + ins + text[off:]
     # 2. line-level edits
-    lines = text.splitlines(keepends=True)
+    lines = lf_lines(text, keepends=True)
     out = []
     for ln in lines:
         body = ln.rstrip("\r\n")
@@ -289,10 +304,10 @@ def build_real(args):
         s0 = decio.full_snapshot(p0)
         _S0[path] = s0
     sites = option_sites(p0, p0._dec_file) if not any(l.lstrip().startswith("End") and not l.lstrip().startswith("Enddecay")
-                                                     for l in raw.splitlines()[:-3]) else {"wrap": [], "comma": [], "semi": []}
+                                                     for l in lf_lines(raw)[:-3]) else {"wrap": [], "comma": [], "semi": []}
     text = raw
     # drop a final End so that packaging decides about it
-    lines = text.splitlines(keepends=True)
+    lines = lf_lines(text, keepends=True)
     while lines and (not lines[-1].strip() or (lines[-1].lstrip().startswith("End") and not lines[-1].lstrip().startswith("Enddecay"))):
         lines.pop()
     text = "".join(lines)
